@@ -30,7 +30,8 @@ ASSUMPTIONS = ['signal handlers are invoked by calling the registered SysHandler
 TERMS = [('quit', None), ('SIGTERM', signal.SIGTERM), ('SIGINT', signal.SIGINT), ('SIGQUIT', signal.SIGQUIT)]
 PRE = {'none': [], 'restart-all': [('restart', {})], 'restart-all+incr': [('restart', {}), ('incr', {'name': 'a'})], 'incr': [('incr', {'name': 'a'})], 'restart': [('restart', {'name': 'a'})],
        'reload': [('reload', {'name': 'a'})], 'stop': [('stop', {'name': 'a'})], 'kill': [('kill', {'name': 'a'})],
-       'stop+incr': [('stop', {'name': 'a'}), ('incr', {'name': 'b'})], 'restart+kill': [('restart', {'name': 'a'}), ('kill', {'name': 'a'})]}
+       'stop+incr': [('stop', {'name': 'a'}), ('incr', {'name': 'b'})], 'restart+kill': [('restart', {'name': 'a'}), ('kill', {'name': 'a'})],
+       'reload-add-socks-fail': [('@reload-add-socks-fail', {})]}
 PIDFILE_CASES = ['absent', 'empty', 'blank', 'garbage', 'zero', 'negative', 'own', 'live-foreign', 'dead', 'trailing-junk',
                  'huge', 'newline-own']
 
@@ -50,6 +51,9 @@ def scenarios(tier):
     # start (not an exclusive operation; paced by its warmup delay) is in progress when the termination event arrives
     for pat in ['obedient', 'stubborn']:
         out.append(Scenario('main', pre='none', pidfile=True, E=1, nw=1, pat=pat, w=0, gw=0, socks=1, od=True))
+    # a reloadconfig that adds two managed sockets and fails on one of them (its port is taken): whatever it did bind must
+    # still be closed and unlinked by the shutdown
+    out.append(Scenario('main', pre='reload-add-socks-fail', pidfile=True, E=0, nw=1, pat='obedient', w=0, gw=0, socks=1, nodet=True))
     if tier != 'quick':
         out.append(Scenario('main', pre='none', pidfile=True, E=2, nw=2, pat='stubborn', w=0, gw=0, socks=1))
     for pc in PIDFILE_CASES:
@@ -184,6 +188,18 @@ def run(scn, ch):
                     state['pre_i'] += 1
                     if world.arbiter.ctrl.stream.closed():
                         break
+                    if cmd == '@reload-add-socks-fail':
+                        import socket as _socket
+                        held = _socket.socket(_socket.AF_INET, _socket.SOCK_STREAM)
+                        held.bind(('127.0.0.1', 0))
+                        held.listen(1)
+                        clients.append(held)
+                        extra = [('a_front', {'path': scratch.path('front.sock')}),
+                                 ('b_api', {'host': '127.0.0.1', 'port': held.getsockname()[1]}),
+                                 ('c_back', {'path': scratch.path('back.sock')})]
+                        write_ini(ini, ws, circus={'warmup_delay': scn.gw}, sockets=socks + extra)
+                        state['extra_paths'] = [scratch.path('front.sock'), scratch.path('back.sock')]
+                        cmd, props = 'reloadconfig', {}
                     world.request(cmd, **props)
                     world.run(until=lambda w: stopped() or w.terminated is not None or
                               (w.slot() is None and not w.stopping_processes()), horizon=4, menu=win.menu)
@@ -252,6 +268,10 @@ def run(scn, ch):
             if scn.socks >= 2:
                 res.check('C08.unix_path_removed', not os.path.exists(scratch.path('ux.sock')),
                           'unix socket file still exists after shutdown', where='sockets.CircusSocket.close')
+            for pth in state.get('extra_paths', []):
+                res.check('C08.unix_path_removed', not os.path.exists(pth),
+                          lambda: 'unix socket file %s (bound by a reloadconfig that then failed on another socket) still '
+                          'exists after shutdown' % os.path.basename(pth), where='arbiter.reload_from_config/sockets')
             if scn.pidfile:
                 res.check('C08.pidfile_removed', not os.path.exists(pidf), 'pid file still exists after shutdown',
                           where='circusd.main')
